@@ -160,6 +160,7 @@ def rand_shape(rng, pdim, rational=None, maxdeg=None, maxextra=None, dim=None, k
         lohi_ = (0.0, 1.0)
     else:
         lohi_ = lohi if lohi is not None else rng.choice([(0.0, 1.0), (2.0, 5.0), (-3.0, 7.5), (10.0, 10.5), (-1.0, 1.0), (-2.0, 2.0)])
+    mixed_ranges = (not normalize) and lohi is None and pdim > 1 and rng.random() < 0.4
     for p, n in zip(degs, sizes):
         c = kvcls
         if c is None:
@@ -172,7 +173,11 @@ def rand_shape(rng, pdim, rational=None, maxdeg=None, maxextra=None, dim=None, k
         if c == 'bezier' and n != p + 1:
             c = 'uniform'
         classes.append(c)
-        kvs.append(knot_vector(rng, p, n, c, lohi_, fine=fine))
+        lohi_d = lohi_
+        if mixed_ranges:
+            # un-normalised shapes whose directions live on different ranges, [0, 1] among them
+            lohi_d = rng.choice([(0.0, 1.0), (0.0, 1.0), (2.0, 5.0), (-3.0, 7.5), (0.0, 2.0), (-1.0, 1.0)])
+        kvs.append(knot_vector(rng, p, n, c, lohi_d, fine=fine))
     ntot = 1
     for s in sizes:
         ntot *= s
@@ -332,6 +337,13 @@ def param_classes(rng, p, U, nrand=4, near_start=False, ulp=False):
             for nb in (_m.nextafter(k, -_m.inf), _m.nextafter(k, _m.inf)):
                 if a < nb < b:
                     out.append(('knot_ulp', nb))
+            # ... and a little further away (1e-9 .. 5e-6 of the range): well inside the neighbouring span, nothing to be lenient about
+            for sgn in (-1.0, 1.0):
+                nb = k + sgn * rng.choice([1e-9, 1e-7, 1e-6, 5e-6]) * (b - a)
+                prev_ = max(x for x in d if x < k)
+                next_ = min(x for x in d if x > k)
+                if nb != k and prev_ < nb < next_ and abs(nb - prev_) > 1e-9 * (b - a) and abs(next_ - nb) > 1e-9 * (b - a):
+                    out.append(('knot_near', nb))
     if near_start:
         for lo_, hi_ in ((0, 1e-4), (1e-4, 1e-2)):
             u = a + (b - a) * rng.uniform(lo_, hi_)
